@@ -38,6 +38,11 @@ def make_diff(name, lang, r2):
             + "\n".join(body) + "\n").encode()
 
 
+def trailing_blanks(d):
+    return b"\n".join((l + b" " * (3 + (k % 4)) if l[:1] in (b"+", b"-", b" ") and 18 <= len(l) <= 30 else l)
+                      for k, l in enumerate(d.split(b"\n")))
+
+
 def cell_rec(row):
     cs, pen = lexer.cells(lexer.tokens(row))
     return [[ord(g[0]), list(fg), list(bg), sorted(at)] for g, fg, bg, at, lk in cs]
@@ -166,11 +171,72 @@ def stream_part(tier, V, rnd):
             "name_skins": {k: v["names"] for k, v in NAME_SKINS.items()}, "drift": len(drifts)}
 
 
+# ---------------------------------------------------------------------------------------------------
+# two styles that differ in nothing but 'syntax' / 'normal' meeting inside one line: the output cannot tell them apart
+# by background or attributes, so a third run marks the style under test with an attribute (underline)
+TWIN_DIFF = (b"diff --git a/src/twin.rs b/src/twin.rs\nindex 1..2 100644\n--- a/src/twin.rs\n+++ b/src/twin.rs\n@@ -3,4 +3,4 @@ fn f()\n"
+             b" fn keep() { let s = \"same\"; } // unchanged comment\n"
+             b"-    let x = \"alpha beta\"; // first comment here\n"
+             b"-    call(one, two); /* block comment old */\n"
+             b"+    let x = \"alpha gamma\"; // second comment here\n"
+             b"+    call(one, three); /* block comment new */\n"
+             b" }\n")
+TWINS = {
+    # name: (options, option that carries the style under test, its value, the same with the marker)
+    "plus-emph": (["--plus-style", 'syntax "#003300"'], "--plus-emph-style", 'normal "#003300"', 'normal ul "#003300"'),
+    "plus-non-emph": (["--plus-style", 'syntax "#003300"', "--plus-emph-style", 'syntax "#006000"'], "--plus-non-emph-style",
+                      'normal "#003300"', 'normal ul "#003300"'),
+    "minus-emph": (["--minus-style", 'syntax "#3f0001"'], "--minus-emph-style", 'normal "#3f0001"', 'normal ul "#3f0001"'),
+    "minus-non-emph": (["--minus-style", 'syntax "#3f0001"', "--minus-emph-style", 'syntax "#901011"'], "--minus-non-emph-style",
+                       'normal "#3f0001"', 'normal ul "#3f0001"'),
+    # only the emph style given (side-by-side changes the built-in default of the line style)
+    "minus-emph-alone": ([], "--minus-emph-style", 'normal "#900000"', 'normal ul "#900000"'),
+    "plus-emph-alone": ([], "--plus-emph-style", 'normal "#006000"', 'normal ul "#006000"'),
+}
+
+
+def twin_part(tier, V):
+    jobs = [(name, view, theme) for name in TWINS for view in ("unified", "side-by-side") for theme in ("Monokai Extended", "Dracula", "GitHub")]
+
+    def one(job):
+        name, view, theme = job
+        opts, key, val, marked = TWINS[name]
+        base = ["--no-gitconfig", "--true-color", "always", "--light" if theme == "GitHub" else "--dark", "--width", "160"] + opts + \
+               (["--side-by-side"] if view == "side-by-side" else [])
+        x = core.run_delta(base + [key, val, "--syntax-theme", theme], TWIN_DIFF)
+        y = core.run_delta(base + [key, val, "--syntax-theme", "none"], TWIN_DIFF)
+        z = core.run_delta(base + [key, marked, "--syntax-theme", theme], TWIN_DIFF)
+        return x, y, z
+    res = core.pmap(one, jobs)
+    events = []
+    for i, (job, (x, y, z)) in enumerate(zip(jobs, res)):
+        if x.code or y.code or z.code:
+            V.violation(f"exit:twin:{job[0]}", f"delta exited {x.code}/{y.code}/{z.code} for the twin styles {job}", {"run": x.to_json()})
+            continue
+        cx = [c for row in x.out.split(b"\n") for c in cell_rec(row) + [[10, [], [], []]]]
+        cy = [c for row in y.out.split(b"\n") for c in cell_rec(row) + [[10, [], [], []]]]
+        cz = [c for row in z.out.split(b"\n") for c in cell_rec(row) + [[10, [], [], []]]]
+        mask = [1 if "ul" in c[3] else 0 for c in cz]
+        if sum(mask) == 0:
+            raise core.ToolError(f"the marker run shows no marked text for {job}")
+        # (the marker attribute itself is not part of x / y)
+        events.append({"run": i, "kind": "fgwhere", "x": cx, "y": cy, "z": mask, "ex": []})
+    failed, tr = tlc.validate_trace("Trace_Rel", events, heap="4g")
+    for f in failed:
+        name, view, theme = jobs[f["run"]]
+        V.violation(f"twin:{name}:{view}", f"text painted with {TWINS[name][1]} '{TWINS[name][2]}' (no 'syntax') takes a colour from the theme "
+                    f"{theme} in {view} view, or differs from the rendering without highlighting (cell {f['at']})",
+                    {"twin": name, "view": view, "theme": theme, "run": res[f["run"]][0].to_json()})
+    log(f"[{PID}] {len(events)} twin-style triples judged by TLC, {len(failed)} rejected")
+    return len(events)
+
+
 def run(tier):
     t0 = time.time()
     V = core.Verdict(PID)
     rnd = random.Random(core.seed())
     sp = stream_part(tier, V, rnd)
+    sp["twin_style_triples"] = twin_part(tier, V)
     jobs = []
     n = 120 if tier == "quick" else 1500
     for i in range(n):
@@ -213,6 +279,10 @@ def run(tier):
         if "--width" not in base:
             base += ["--width", "100"]
         d1 = make_diff(a, lang, random.Random(i))
+        if i % 5 == 0:
+            # a low highlighting limit, and lines whose part beyond it is nothing but trailing blanks
+            base += ["--max-syntax-highlighting-length", "24"]
+            d1 = trailing_blanks(d1)
         if kind == "themes":
             x = core.run_delta(base + ["--syntax-theme", t1], d1)
             y = core.run_delta(base + ["--syntax-theme", t2], d1)
@@ -221,6 +291,8 @@ def run(tier):
             y = core.run_delta(base + ["--syntax-theme", "none"], d1)
         else:
             d2 = make_diff(b, lang, random.Random(i))
+            if i % 5 == 0:
+                d2 = trailing_blanks(d2)
             x = core.run_delta(base + ["--syntax-theme", t1], d1)
             y = core.run_delta(base + ["--syntax-theme", t1], d2)
         return x, y
